@@ -204,8 +204,9 @@ def ser_cases(rnd, n, thorough=False):
         ino = rnd.choice([1, 2, 70000, 0xFFFFFFFF])
         if kind == "kfile":
             t = rnd.choice([2, 2, 9])
-            bs = 4096
-            f = gen_inode(rnd, t, bs, wf=True, big=rnd.random() < 0.2)
+            big = rnd.random() < 0.2
+            bs = 1048576 if big else 4096
+            f = gen_inode(rnd, t, bs, wf=True, big=big)
             out.append("ser %s %d %d %d %d %d %d %d kfile %s" % (ids, perm | FMT[2], uid, gid, mt, ino, nlink, xattr, f))
         elif kind == "kslink":
             tgt = bytes(rnd.randrange(1, 256) for _ in range(rnd.choice([1, 2, 100, 255, 4095])))
